@@ -15,7 +15,7 @@ EXTENDS ServerCore, Json, Integers
 
 Log == ndJsonDeserialize("trace.ndjson")
 
-AllDevs == {"subid-reuse", "itemid-reuse", "deletesub-foreign-effective", "createitem-foreign-effective",
+AllDevs == {"activate-accepts-bad-signature", "stale-cleanup-deletes-live-subscription", "subid-reuse", "itemid-reuse", "deletesub-foreign-effective", "createitem-foreign-effective",
             "setmode-foreign-effective", "deleteitem-foreign-effective",
             "read-ignores-access", "write-ignores-access"}
            \cup {NoSess(s) : s \in Protected}
@@ -62,7 +62,8 @@ TStep ==
    /\ l <= Len(Log) /\ e.ev # "Reset"
    /\ IF e.res = "crash" THEN Crash(e.ev, e.c)
       ELSE /\ CASE e.ev = "CreateSession" -> e.res = "ok" /\ CreateSession(e.c)
-                [] e.ev = "Activate"    -> Activate(e.c, e.res)
+                [] e.ev = "Activate"    -> Activate(e.c, e.res, e.v = 1)
+                [] e.ev = "Cleanup"     -> Cleanup(e.id, e.id \in DOMAIN subs /\ e.id \notin {r.id : r \in RangeOf(e.subs)})
                 [] e.ev = "Close"       -> Close(e.c, e.res, Gone)
                 [] e.ev = "Read"        -> Read(e.c, e.n, e.res, e.val)
                 [] e.ev = "Write"       -> Write(e.c, e.n, e.v, e.res)
